@@ -571,8 +571,18 @@ class World:
         self.transitions.add(H(s, opname))
 
     # ---- compare helpers ------------------------------------------------------------------------
-    def compare(self, idx, q, impl, twin, tolerant, extra=None, rtol=1e-9, atol=0.0):
-        """impl / twin are outcome tuples.  Returns True when they agree."""
+    ILL_CONDITIONED = {"derivative", "unit_tangent", "curvature", "normal", "cropped", "ilength", "area"}
+
+    def compare(self, idx, q, impl, twin, tolerant, extra=None, rtol=1e-9, atol=0.0, what=None):
+        """impl / twin are outcome tuples.  Returns True when they agree.  `what`: the query kind when `q`
+        is only its symptom family."""
+        if tolerant and (what or q) in self.ILL_CONDITIONED:
+            # A last-bit difference in a cached length moves the segment parameter by a last bit; these
+            # answers can amplify that without bound (a tangent next to a cusp, a bisection that stops one
+            # step earlier, a crop that lands on the other side of a joint): on rounding-tainted objects
+            # they are executed for their side effects but not judged.
+            self.probe("inconclusive_ill_conditioned_query_on_rounding_tainted_object")
+            return True
         if impl[0] == "i":
             return True     # interrupted operation: no value to judge
         if self._cur_strict and family_of(q) == "length-family":
@@ -1516,7 +1526,9 @@ class World:
             Tv = op["T"]
             oc = self.impl(lambda: p.T2t(Tv))
             tw = outcome(lambda: T().T2t(Tv))
-            if tolerant and oc[0] == "v" and tw[0] == "v":
+            if tolerant and self._near_boundary(pr, Tv):
+                self.probe("inconclusive_boundary_query_on_rounding_tainted_path")
+            elif tolerant and oc[0] == "v" and tw[0] == "v":
                 # compare through the twin's own inverse map: invariant to which side of a
                 # segment boundary a rounding-level difference lands on
                 try:
@@ -1586,7 +1598,7 @@ class World:
             if tolerant and self._near_boundary(pr, Tv):
                 self.probe("inconclusive_boundary_query_on_rounding_tainted_path")
             else:
-                self.compare(idx, "point", oc, tw, tolerant, rtol=1e-7, atol=1e-9 if tolerant else 0.0)
+                self.compare(idx, "point", oc, tw, tolerant, rtol=1e-7, atol=1e-9 if tolerant else 0.0, what=q)
             if oc[0] != "i":
                 # (marking is a superset: any query that may have asked segments for their default
                 #  length makes the default-tolerance value a legitimate cached answer later)
@@ -1599,7 +1611,7 @@ class World:
             if tolerant and self._near_boundary(pr, Tv):
                 self.probe("inconclusive_boundary_query_on_rounding_tainted_path")
             else:
-                self.compare(idx, "point", oc, tw, tolerant, rtol=1e-6, atol=1e-9 if tolerant else 0.0)
+                self.compare(idx, "point", oc, tw, tolerant, rtol=1e-6, atol=1e-9 if tolerant else 0.0, what=q)
             if oc[0] != "i":
                 self._mark_path_tols(pr, *DEFAULT_TOL)
                 warmed = Tv not in (0, 1)
@@ -1661,7 +1673,8 @@ class World:
             tw = outcome(lambda: _with_alarm(3.0, lambda: ask(T(), self.twin_path(other))))
             if (oc[0] == "e" and oc[1] == "_Alarm") or (tw[0] == "e" and tw[1] == "_Alarm"):
                 self.probe("intersect_query_abandoned_after_time_limit")
-            elif tolerant or self.path_taint(other):
+            elif tolerant or self.path_taint(other) or self._cur_strict or any(self.segs[x].strict for x in other.model):
+                # (its T values are fractions of path length: as length-dependent as T2t)
                 self.probe("inconclusive_boundary_query_on_rounding_tainted_path")
             else:
                 self.compare(idx, "intersect", oc, tw, False)
